@@ -84,6 +84,8 @@ enum Call {
     NoDelay(bool),
     ConnectTimeout,
     RelayHost,
+    /// start over from one of the crate-level shortcuts `insim::tcp` / `insim::udp` / `insim::relay`
+    Shortcut(u8),
 }
 
 fn apply(b: Builder, m: &mut Model, c: &Call, remote: SocketAddr, local: SocketAddr) -> Builder {
@@ -140,6 +142,28 @@ fn apply(b: Builder, m: &mut Model, c: &Call, remote: SocketAddr, local: SocketA
         Call::Relay => {
             m.proto = Proto::Relay;
             b.relay()
+        },
+        Call::Shortcut(k) => {
+            // a fresh builder with the documented defaults and the chosen transport
+            *m = Model::default();
+            match k % 4 {
+                0 => {
+                    m.proto = Proto::Tcp;
+                    insim::tcp(remote)
+                },
+                1 => {
+                    m.proto = Proto::Udp(Some(local.port()));
+                    insim::udp(remote, Some(local))
+                },
+                2 => {
+                    m.proto = Proto::Udp(None);
+                    insim::udp(remote, None)
+                },
+                _ => {
+                    m.proto = Proto::Relay;
+                    insim::relay()
+                },
+            }
         },
         Call::Compressed(c) => {
             m.compressed = *c;
@@ -212,10 +236,11 @@ fn random_call(r: &mut Rng) -> Call {
         13 => Call::Relay,
         14 => Call::Compressed(r.chance(1, 2)),
         15 => Call::VerifyVersion(r.chance(1, 2)),
-        _ => match r.below(4) {
+        _ => match r.below(5) {
             0 => Call::NoDelay(true),
             1 => Call::ConnectTimeout,
             2 => Call::RelayHost,
+            3 => Call::Shortcut(r.below(4) as u8),
             _ => Call::NoDelay(false),
         },
     }
@@ -293,7 +318,7 @@ fn check_wire(c: &Corpus, r: &mut Rng, asynchronous: bool, p: &mut Part) -> Resu
     let mut calls = if proto_last { vec![] } else { vec![final_proto.clone()] };
     for _ in 0..r.usize_below(12) {
         let cl = random_call(r);
-        if !proto_last && matches!(cl, Call::Tcp | Call::Udp(_) | Call::Relay) {
+        if !proto_last && matches!(cl, Call::Tcp | Call::Udp(_) | Call::Relay | Call::Shortcut(_)) {
             continue;
         }
         calls.push(cl);
